@@ -478,10 +478,10 @@ def check_racing(case):
 
 
 def plan(tier, seed):
-    n = 2 if tier == "quick" else 40
+    n = 2 if tier == "quick" else 20
     tasks = [{"n": n, "seed": seed * 1000 + s, "tier": tier} for s in range(16)]
-    tasks += [{"kind": "racing", "n": 1 if tier == "quick" else 12, "seed": seed * 1000 + 800 + s, "tier": tier} for s in range(4 if tier == "quick" else 16)]
-    tasks += [{"kind": "midread", "n": 2 if tier == "quick" else 30, "seed": seed * 1000 + 500 + s, "tier": tier} for s in range(4 if tier == "quick" else 16)]
+    tasks += [{"kind": "racing", "n": 1 if tier == "quick" else 4, "seed": seed * 1000 + 800 + s, "tier": tier} for s in range(4 if tier == "quick" else 16)]
+    tasks += [{"kind": "midread", "n": 2 if tier == "quick" else 10, "seed": seed * 1000 + 500 + s, "tier": tier} for s in range(4 if tier == "quick" else 16)]
     return tasks
 
 
